@@ -96,7 +96,8 @@ def mtc_seq_cfgs(tier):
     for pol in pols:
         for promo in ("always", "on_second_access", "never"):
             for cap in (1, 2):
-                for wt in ((True,) if tier == "quick" else (True, False)):
+                # a write-back L1 is explored for three representative policies only (thorough)
+                for wt in ((True, False) if tier != "quick" and pol in ("LRU", "LFU", "Clock") else (True,)):
                     out.append({"driver": "mtc-seq", "sys": "mtc", "pol": pol, "promo": promo, "cap": cap, "wt": wt,
                                 "depth": 4 if tier == "quick" else 5, "rseed": 1})
     return out
